@@ -123,6 +123,11 @@ impl<T: ?Sized> DerefMut for MutexGuard<'_, T> {
 impl<T: ?Sized> Drop for MutexGuard<'_, T> {
     fn drop(&mut self) {
         if let Some(g) = self.guard.take() {
+            // a thread can be preempted while it holds a lock: others then see it held
+            // (try_lock fails, lock() waits).  Not while unwinding: no scheduling inside a panic.
+            if rt::in_sim() && !std::thread::panicking() {
+                rt::point(Op::MutexUnlock);
+            }
             self.mutex.owner.store(usize::MAX, std::sync::atomic::Ordering::Relaxed);
             drop(g);
             rt::wake_all(self.mutex.key());
@@ -652,6 +657,9 @@ impl<T: ?Sized> DerefMut for RwLockWriteGuard<'_, T> {
 impl<T: ?Sized> Drop for RwLockReadGuard<'_, T> {
     fn drop(&mut self) {
         if let Some(g) = self.guard.take() {
+            if rt::in_sim() && !std::thread::panicking() {
+                rt::point(Op::MutexUnlock);
+            }
             drop(g);
             rt::wake_all(self.lock.key());
         }
@@ -661,6 +669,9 @@ impl<T: ?Sized> Drop for RwLockReadGuard<'_, T> {
 impl<T: ?Sized> Drop for RwLockWriteGuard<'_, T> {
     fn drop(&mut self) {
         if let Some(g) = self.guard.take() {
+            if rt::in_sim() && !std::thread::panicking() {
+                rt::point(Op::MutexUnlock);
+            }
             drop(g);
             rt::wake_all(self.lock.key());
         }
